@@ -16,15 +16,16 @@ import (
 //
 // Request builders are discovered as the library functions that call http.NewRequest*.
 // For each builder, between construction and dispatch:
-//   R-static-headers   the loop over the transport's configured http.Header field adds to this request
-//   R-before-request   every path to the dispatch passes exactly one before-request hook call with this
-//                      request (only the "no owning client" nil-check may bypass it); the hook's error
-//                      edge never reaches the dispatch; the hook's context derives from the builder's own
-//                      context parameter, never from context.Background()
-//   R-via-handler      the dispatch is HTTPReqHandler.Handle; (*http.Client).Do only on the handler==nil edge
-//   R-path             sibling agreement per transport: if any builder applies the configured path, all do
-//   R-session-header   sibling agreement per transport: if any builder sets Mcp-Session-Id, all do
-//   R-url-verbatim      the request address is the configured URL rendered verbatim
+//
+//	R-static-headers   the loop over the transport's configured http.Header field adds to this request
+//	R-before-request   every path to the dispatch passes exactly one before-request hook call with this
+//	                   request (only the "no owning client" nil-check may bypass it); the hook's error
+//	                   edge never reaches the dispatch; the hook's context derives from the builder's own
+//	                   context parameter, never from context.Background()
+//	R-via-handler      the dispatch is HTTPReqHandler.Handle; (*http.Client).Do only on the handler==nil edge
+//	R-path             sibling agreement per transport: if any builder applies the configured path, all do
+//	R-session-header   sibling agreement per transport: if any builder sets Mcp-Session-Id, all do
+//	R-url-verbatim      the request address is the configured URL rendered verbatim
 func init() { Registry["C19"] = checkC19 }
 
 type builder struct {
@@ -820,7 +821,9 @@ func appliesPathIn(c *Ctx, fn *ssa.Function, req ssa.Value, depth int) bool {
 	return found
 }
 
-func setsHeaderConst(c *Ctx, b *builder, key string) bool { return setsHeaderConstIn(c, b.fn, b.req, key, 0) }
+func setsHeaderConst(c *Ctx, b *builder, key string) bool {
+	return setsHeaderConstIn(c, b.fn, b.req, key, 0)
+}
 
 func setsHeaderConstIn(c *Ctx, fn *ssa.Function, req ssa.Value, key string, depth int) bool {
 	reqVals := derivedReq(req)
